@@ -3,9 +3,12 @@
 package system
 
 import (
+	"fmt"
 	"os"
 	"path/filepath"
 	"strings"
+	"sync"
+	"sync/atomic"
 	"testing"
 
 	"github.com/mdlayher/corerad/internal/vfh"
@@ -136,4 +139,61 @@ func tuplesS(alpha []string, k int, fn func([]string)) {
 		}
 	}
 	rec(nil)
+}
+
+// verifSysctlConc: one State shared by every reader, as in the daemon (main creates a single
+// system.NewState() for all advertisers, the metrics collector and the debug API): readers of
+// different interfaces run concurrently and each must see its own interface's value.
+//
+//	scc readers reads | wrong
+func verifSysctlConc(t *testing.T, r *vfh.Rand, out *vfh.Out) {
+	root, err := os.MkdirTemp("", "verif-sysctlc")
+	if err != nil {
+		t.Logf("sysctl concurrency not run: %v", err)
+		return
+	}
+	defer os.RemoveAll(root)
+	type ifc struct {
+		name     string
+		fwd, acf bool
+	}
+	var ifs []ifc
+	for i, v := range [][2]bool{{false, true}, {true, false}, {false, false}, {true, true}} {
+		d := filepath.Join(root, fmt.Sprintf("if%d", i))
+		os.MkdirAll(d, 0o755)
+		w := func(key string, b bool) {
+			c := "0\n"
+			if b {
+				c = "1\n"
+			}
+			os.WriteFile(filepath.Join(d, key), []byte(c), 0o644)
+		}
+		w("forwarding", v[0])
+		w("autoconf", v[1])
+		ifs = append(ifs, ifc{strings.Repeat("../", 8) + strings.TrimPrefix(d, "/"), v[0], v[1]})
+	}
+	if sysctl(ifs[0].name, "forwarding") != filepath.Join(root, "if0", "forwarding") {
+		return
+	}
+	st := NewState()
+	readers, reads := 8, vfh.N(3000, 60000)
+	var wrong int64
+	var wg sync.WaitGroup
+	for g := 0; g < readers; g++ {
+		wg.Add(1)
+		go func(g int) {
+			defer wg.Done()
+			me := ifs[g%len(ifs)]
+			for k := 0; k < reads; k++ {
+				if b, err := st.IPv6Forwarding(me.name); err != nil || b != me.fwd {
+					atomic.AddInt64(&wrong, 1)
+				}
+				if b, err := st.IPv6Autoconf(me.name); err != nil || b != me.acf {
+					atomic.AddInt64(&wrong, 1)
+				}
+			}
+		}(g)
+	}
+	wg.Wait()
+	out.Line(fmt.Sprintf("scc %d %d", readers, reads), fmt.Sprint(atomic.LoadInt64(&wrong)))
 }
